@@ -136,7 +136,16 @@ pub(super) fn get_i32<'a, 't, 's, 'm>(
 ) -> Option<(&'m PropertyCode<'a, 't, 's>, i32)> {
     let (p, v) = get_simple_value(ctx, properties_code_map, name, diagnostics)?;
     if let Some(d) = v.as_number() {
-        Some((p, d as i32))
+        if (i32::MIN as f64..=i32::MAX as f64).contains(&d) {
+            Some((p, d as i32))
+        } else {
+            // "as i32" would silently saturate
+            diagnostics.push(Diagnostic::error(
+                p.node().byte_range(),
+                "integer value out of range",
+            ));
+            None
+        }
     } else {
         diagnostics.push(Diagnostic::error(
             p.node().byte_range(),
